@@ -324,6 +324,119 @@ theorem pathExistsInAttrset_agree (ts : Node) (segs : List Text)
   unfold pathExistsInAttrset
   rw [findAttrpathLeaf_agree hA ts segs hts hs, pathGo_agree hA segs hs ts hts]
 
+/-! ### the state-keeping functions
+
+Functions that return a node are compared in continuation-passing style: whatever node they hand to
+the rest of the computation is within `T` again (a sub-node of the one they were given, or a fresh
+empty set), so the rest agrees as well. -/
+
+omit hA in
+theorem em_ext {α} (m1 m2 : EditM α) (h : ∀ d, m1 d = m2 d) : m1 = m2 := funext h
+
+omit hA in
+theorem em_bind_assoc {α β γ} (m : EditM α) (f : α → EditM β) (g : β → EditM γ) :
+    (m >>= f) >>= g = m >>= fun a => f a >>= g := by
+  apply em_ext; intro d
+  show bind' (bind' m f) g d = bind' m (fun a => bind' (f a) g) d
+  unfold bind'
+  cases h : m d with
+  | mk r d' => cases r <;> simp
+
+omit hA in
+theorem em_bind_congr {α β} (m : EditM α) (f g : α → EditM β) (h : ∀ a, f a = g a) :
+    m >>= f = m >>= g := by
+  have : f = g := funext h
+  rw [this]
+
+theorem setAttrpathWalk_agree (segs : List Text) (hs : ∀ s ∈ segs, s ∈ T) :
+    ∀ (cur : Node), Within T cur → ∀ {α : Type} (k1 k2 : Node → EditM α),
+      (∀ n, Within T n → k1 n = k2 n) →
+      (@setAttrpathWalk I1 cur segs >>= k1) = (@setAttrpathWalk I2 cur segs >>= k2) := by
+  induction segs with
+  | nil =>
+    intro cur hcur α k1 k2 hk
+    simp only [setAttrpathWalk]
+    exact hk cur hcur
+  | cons seg more ih =>
+    intro cur hcur α k1 k2 hk
+    have hvs := within_values hcur
+    have hseg : seg ∈ T := hs seg (by simp)
+    have hmore : ∀ s ∈ more, s ∈ T := fun s h => hs s (by simp [h])
+    simp only [setAttrpathWalk]
+    rw [findNamedBinding_agree hA (some true) hvs hseg, findNamedBinding_agree hA (some false) hvs hseg]
+    cases hf : @findNamedBinding I2 cur.setValues seg (some true) with
+    | some b =>
+      have hb : Within T b := by unfold findNamedBinding at hf; exact find?_within hvs hf
+      simp only []
+      cases hv : b.bindValue? with
+      | none => rfl
+      | some v =>
+        cases v <;> try rfl
+        exact ih hmore _ (within_value hb hv) k1 k2 hk
+    | none =>
+      simp only []
+      split
+      · rfl
+      · cases hsid : cur.setSid? with
+        | none => rfl
+        | some csid =>
+          simp only [em_bind_assoc]
+          apply em_bind_congr; intro sid
+          apply em_bind_congr; intro bid
+          apply em_bind_congr; intro _
+          exact ih hmore _ (within_fresh_set T sid _ _) k1 k2 hk
+
+theorem setSetItem_agree (s : Node) (key : Text) (v : Node) (hs : Within T s) (hk : key ∈ T) :
+    @setSetItem I1 s key v = @setSetItem I2 s key v := by
+  unfold setSetItem
+  rw [findBinding_agree hA (within_values hs) hk]
+
+theorem setDelItem_agree (s : Node) (key : Text) (hs : Within T s) (hk : key ∈ T) :
+    @setDelItem I1 s key = @setDelItem I2 s key := by
+  unfold setDelItem
+  rw [findBinding_agree hA (within_values hs) hk]
+
+omit hA in
+theorem mem_of_mem_dropLast' {α} : ∀ (l : List α) (a : α), a ∈ l.dropLast → a ∈ l
+  | [], _, h => by simp at h
+  | [_], _, h => by simp at h
+  | x :: y :: t, a, h => by
+    rw [List.dropLast_cons_cons] at h
+    rcases List.mem_cons.mp h with rfl | h'
+    · simp
+    · exact List.mem_cons_of_mem _ (mem_of_mem_dropLast' (y :: t) a h')
+
+omit hA in
+theorem getLast?_mem {α} {l : List α} {a : α} (h : l.getLast? = some a) : a ∈ l :=
+  List.mem_of_getLast? h
+
+theorem setAttrpathValue_agree (tsSid : Nat) (root : Node) (segs : List Text) (v : Node)
+    (hroot : Within T root) (hs : ∀ s ∈ segs, s ∈ T) :
+    @setAttrpathValue I1 tsSid root segs v = @setAttrpathValue I2 tsSid root segs v := by
+  unfold setAttrpathValue
+  cases hv : root.bindValue? with
+  | none => rfl
+  | some rv =>
+    cases rv <;> try rfl
+    rename_i sid vs o m r
+    simp only []
+    apply setAttrpathWalk_agree hA _ (fun s h => hs s (List.mem_of_mem_drop (mem_of_mem_dropLast' _ _ h)))
+      _ (within_value hroot hv)
+    intro n hn
+    cases hl : segs.getLast? with
+    | none => rfl
+    | some finalKey =>
+      have hfk : finalKey ∈ T := hs _ (getLast?_mem hl)
+      simp only []
+      rw [findNamedBinding_agree hA (some true) (within_values hn) hfk,
+        findNamedBinding_agree hA (some false) (within_values hn) hfk]
+
+theorem removeAttrpathValue_agree (ts : Node) (segs : List Text)
+    (hts : Within T ts) (hs : ∀ s ∈ segs, s ∈ T) :
+    @removeAttrpathValue I1 ts segs = @removeAttrpathValue I2 ts segs := by
+  unfold removeAttrpathValue
+  rw [walkAttrpathStack_agree hA ts segs false true hts hs]
+
 end
 
 end Nima
